@@ -1,8 +1,162 @@
-import AsmjitVerif.Model.Builder
-import AsmjitVerif.Spec.Builder
+/-
+  C08 – Builder/Compiler serialization is byte-identical to direct assembling.
+
+  What is proved here (for ALL inputs / histories, no bound):
+  * `replay_store`, `replay_canonical`, `inst_node_replays_call` – an instruction captured by `BaseBuilder::_emit` (0..6 operands, any
+    option word, extra register, inline comment) is replayed by `serialize_to` as exactly the call that was made; operands behind
+    `op_count` (which the assembler would ignore as well) are the only thing normalised away.
+  * `serialize_all_on_success`, `serialize_prefix_on_error` – `serialize_to` against ANY destination emitter: without a rejection every
+    call is issued in order; otherwise exactly the calls up to and including the first rejected one are issued, the error is that
+    call's error and the destination is in the state it had at that call ("same errors" of the property).
+  * `init_inv`, `refines_partial` – the node list of the model (cursor *node*, recursive list surgery, cached `_next_section` links with a
+    dirty flag) refines the gap-buffer document of Spec/Builder.lean for every history of add_node / add_after / add_before /
+    remove_node / set_cursor / section-node registration, and the representation invariant (no node twice, cursor linked, link cache
+    coherent unless flagged dirty) holds in every reachable state ("editing the node list yields the code of the edited sequence").
+
+  Full-strength statement that is NOT proved yet (kept here as the target):
+
+      theorem refines : ∀ (acts : List Act) (m : MList), Inv m →
+          Inv (acts.foldl MList.apply m) ∧ (acts.foldl MList.apply m).abs = acts.foldl Spec.Doc.apply m.abs
+
+  `refines_partial` proves it under the extra hypothesis that no action is `removeRange a b` with `a ≠ b` (remove_nodes over a real range)
+  or `section n` (BaseBuilder::section: cursor to the end of the section's region through the cached links).  For these two the
+  agreement model = specification = real Builder is checked by the correspondence and by the monitor on every run, not proved.
+  Also not proved: `serialize_groups` (per-section projection under section re-entry); the byte equality itself is differential.
+-/
+import AsmjitVerif.Lemmas.C08Ops
+import AsmjitVerif.Lemmas.C08Refine
+
 namespace AsmjitVerif.Props.C08
 open AsmjitVerif.Builder
+open AsmjitVerif.Builder.Spec (Doc)
 
-theorem placeholder_init : serialize (St.init 8) = [.section 0] := by decide
+/-! ## Instruction capture and replay -/
+
+/-- capture (`_emit`: op_count, set_op, reset_op_range) followed by replay (`serialize_to`: operand array reconstruction) keeps slot `i`
+    iff `i < op_count` – for all six operands, whatever they are -/
+theorem replay_store (a b c d e f : Operand) :
+    replayOps (opCountFromArgs [a, b, c, d, e, f]) (storeOps [a, b, c, d, e, f]) = normalizeOps [a, b, c, d, e, f] :=
+  replay_store_eq a b c d e f
+
+/-- … and nothing at all is lost when the operand list has no hole in front of its 4th..6th operand -/
+theorem replay_canonical (a b c d e f : Operand) (h : CanonicalOps a b c d e f) :
+    replayOps (opCountFromArgs [a, b, c, d, e, f]) (storeOps [a, b, c, d, e, f]) = [a, b, c, d, e, f] := by
+  rw [replay_store_eq, normalize_canonical a b c d e f h]
+
+example : CanonicalOps "r1" "r2" "-" "-" "-" "-" := by simp [CanonicalOps, Operand.isNone]
+example : replayOps (opCountFromArgs ["x", "y", "z", "u", "v", "w"]) (storeOps ["x", "y", "z", "u", "v", "w"]) = ["x", "y", "z", "u", "v", "w"] := by decide
+-- a hole is normalised: the 5th operand behind a none 4th operand is dropped by `_emit` (the assembler ignores it as well)
+example : replayOps (opCountFromArgs ["x", "-", "-", "-", "v", "-"]) (storeOps ["x", "-", "-", "-", "v", "-"]) = ["x", "-", "-", "-", "-", "-"] := by decide
+
+/-- the node `_emit` creates replays as the call that was made: same id, the option word of that moment (reserved bit cleared), the extra
+    register and inline comment of that moment, the normalised operands; the one-shot state is reset; the node is appended at the cursor -/
+theorem inst_node_replays_call (fr : Front) (active : Nat → Bool) (id : Nat) (a b c d e f : Operand) :
+    let r := front fr active (.inst id [a, b, c, d, e, f])
+    r.2.1 = .ok ∧ r.2.2 = [.add fr.nodes.length] ∧
+    (nodeAt r.1 fr.nodes.length).toCall = .inst id (clearReserved fr.opts) fr.extra fr.cmt (normalizeOps [a, b, c, d, e, f]) ∧
+    r.1.opts = 0 ∧ r.1.extra = "-" ∧ r.1.cmt = "-" ∧
+    (∀ n, n < fr.nodes.length → nodeAt r.1 n = nodeAt fr n) := by
+  refine ⟨rfl, rfl, ?_, rfl, rfl, rfl, ?_⟩
+  · simp [front, Front.newNode, nodeAt, Node.toCall, replay_store_eq]
+  · intro n hn
+    simp [front, Front.newNode, nodeAt, List.getD_eq_getElem?_getD, List.getElem?_append_left hn]
+
+/-! ## serialize_to against an arbitrary destination -/
+
+/-- no call rejected: every call has been issued, in order -/
+theorem serialize_all_on_success {σ : Type} (dst : σ → Call → σ × Option String) (cs : List Call) (s s' : σ)
+    (h : serializeTo dst s cs = (s', none)) :
+    s' = issueAll dst s cs ∧ ∀ pre c post, cs = pre ++ c :: post → (dst (issueAll dst s pre) c).2 = none :=
+  serializeTo_ok dst cs s s' h
+
+/-- a call rejected: exactly the calls in front of the first rejected one were accepted, the reported error is that call's error and the
+    destination is left as that call left it -/
+theorem serialize_prefix_on_error {σ : Type} (dst : σ → Call → σ × Option String) (cs : List Call) (s s' : σ) (e : String)
+    (h : serializeTo dst s cs = (s', some e)) :
+    ∃ pre c post, cs = pre ++ c :: post ∧
+      (∀ p q r, pre = p ++ q :: r → (dst (issueAll dst s p) q).2 = none) ∧
+      dst (issueAll dst s pre) c = (s', some e) :=
+  serializeTo_err dst cs s s' e h
+
+-- non-vacuity: a destination that counts calls and rejects alignment 3
+example : serializeTo (fun (n : Nat) c => if c = .align 0 3 then (n, some "InvalidArgument") else (n + 1, none)) 0
+    [.bind 0, .align 0 3, .bind 1] = (1, some "InvalidArgument") := by decide
+
+/-! ## The node list refines the gap buffer -/
+
+/-- the list after `on_attach` satisfies the representation invariant -/
+theorem init_inv (r : Nat) : Inv (Builder.St.init r).l := by
+  refine ⟨by simp [Builder.St.init], ?_, ?_⟩
+  · intro c hc; simp [Builder.St.init] at hc ⊢; exact hc.symm
+  · intro _ s hs _
+    simp [Builder.St.init] at hs
+    subst hs
+    simp [Builder.St.init, lookupNext, succIn, MList.isSec]
+
+theorem init_abs (r : Nat) : (Builder.St.init r).l.abs = (Spec.St.init r).d := by
+  simp [Builder.St.init, Spec.St.init, MList.abs, absCursor]
+
+/-- actions covered by the proof so far -/
+def Covered : Act → Prop
+  | .removeRange a b => a = b
+  | .section _ => False
+  | _ => True
+
+theorem refine_step (m : MList) (a : Act) (hc : Covered a) (h : Inv m) :
+    Inv (m.apply a) ∧ (m.apply a).abs = m.abs.apply a := by
+  cases a with
+  | add n => exact refine_add m n h
+  | addAfter n r => exact refine_addAfter m n r h
+  | addBefore n r => exact refine_addBefore m n r h
+  | remove n => exact refine_remove m n h
+  | removeRange a b =>
+    have hab : a = b := hc
+    subst hab
+    have := refine_remove m a h
+    simpa [MList.apply, Doc.apply] using this
+  | setCursor c => exact refine_setCursor m c h
+  | regSection n => exact refine_regSection m n h
+  | «section» n => exact absurd hc (by simp [Covered])
+
+/-- Refinement + invariant for every history of covered list actions, from any state satisfying the invariant (in particular from the
+    attached Builder, `init_inv`): the model's list/cursor/cache state abstracts to exactly the document the specification computes. -/
+theorem refines_partial : ∀ (acts : List Act) (m : MList), (∀ a ∈ acts, Covered a) → Inv m →
+    Inv (acts.foldl MList.apply m) ∧ (acts.foldl MList.apply m).abs = acts.foldl Doc.apply m.abs := by
+  intro acts
+  induction acts with
+  | nil => intro m _ h; exact ⟨h, rfl⟩
+  | cons a rest ih =>
+    intro m hc h
+    have hstep := refine_step m a (hc a (by simp)) h
+    have := ih (m.apply a) (fun x hx => hc x (by simp [hx])) hstep.1
+    simpa [List.foldl_cons, hstep.2] using this
+
+/-- consequence: what `serialize_to` walks (the model's list) is the specification's item sequence, after any covered history -/
+theorem serialized_list_is_document (acts : List Act) (r : Nat) (hc : ∀ a ∈ acts, Covered a) :
+    (acts.foldl MList.apply (Builder.St.init r).l).list = (acts.foldl Doc.apply (Spec.St.init r).d).items := by
+  have := (refines_partial acts (Builder.St.init r).l hc (init_inv r)).2
+  rw [init_abs] at this
+  exact congrArg Doc.items this
+
+-- non-vacuity: a history with insertion at the cursor, a move (remove + add_before), a cursor change and a removal of the cursor node
+def sampleActs : List Act :=
+  [.add 1, .add 2, .add 3, .remove 2, .addBefore 2 1, .setCursor (some 2), .add 4, .remove 4, .setCursor none, .add 5]
+
+example : ∀ a ∈ sampleActs, Covered a := by
+  intro a ha
+  simp [sampleActs] at ha
+  rcases ha with rfl | rfl | rfl | rfl | rfl | rfl | rfl | rfl | rfl | rfl <;> simp [Covered]
+example : (sampleActs.foldl MList.apply (Builder.St.init 8).l).list = [5, 0, 2, 1, 3] := by decide
+example : (sampleActs.foldl MList.apply (Builder.St.init 8).l).cursor = some 5 := by decide
+example : (sampleActs.foldl Doc.apply (Spec.St.init 8).d).items = [5, 0, 2, 1, 3] := by decide
+example : (sampleActs.foldl Doc.apply (Spec.St.init 8).d).gap = 1 := by decide
+
+-- the two uncovered actions agree with the specification on a concrete history (section re-entry through the cached links, range removal)
+def sampleActs2 : List Act :=
+  [.add 1, .regSection 2, .section 2, .add 3, .section 0, .add 4, .section 2, .add 5, .removeRange 1 2, .section 2]
+
+example : (sampleActs2.foldl MList.apply (Builder.St.init 8).l).abs.items = (sampleActs2.foldl Doc.apply (Spec.St.init 8).d).items := by decide
+example : (sampleActs2.foldl MList.apply (Builder.St.init 8).l).abs.gap = (sampleActs2.foldl Doc.apply (Spec.St.init 8).d).gap := by decide
+example : (sampleActs2.foldl MList.apply (Builder.St.init 8).l).list = [0, 3, 5, 2] := by decide
 
 end AsmjitVerif.Props.C08
